@@ -13,7 +13,9 @@ def stimuli(rng, count):
         k = rng.randint(1, 4)
         vals = [rng.choice([rng.randint(1, 9), rng.randint(1, 40), rng.randint(1, 200)]) for _ in range(n)]
         kind = i % 6
-        st = {"vals": vals, "k": k, "copies": [1] * n, "copies_scalar": True, "w": None, "cons": "none", "c": 0, "inject": ""}
+        if i % 3 == 0 and n >= 2:          # repeated values: with plain-list input two positions then hold "the same item"
+            vals[rng.randrange(n)] = vals[rng.randrange(n)]
+        st = {"vals": vals, "k": k, "copies": [1] * n, "copies_scalar": True, "w": None, "cons": "none", "c": 0, "inject": "", "fmt": "list" if i % 2 else "dict"}
         st["o"], st["kp"] = OBJS[i % 5]
         if kind == 1:      # copies: one number
             st["copies"] = [2] * n if n * 2 * 1 <= 8 else [1] * n
@@ -50,7 +52,7 @@ def stimuli(rng, count):
 
 def ctx_of(fl):
     t = fl["trace"]
-    return {"alg": "ilp", "vals": t["vals"], "k": t["k"], "o": t["o"], "kp": t["kp"], "copies": t["copies"], "weights": t["w"] if t["wgiven"] else None, "cons": t["cons"], "c": t["c"],
+    return {"alg": "ilp", "vals": t["vals"], "k": t["k"], "o": t["o"], "kp": t["kp"], "copies": t["copies"], "weights": t["w"] if t["wgiven"] else None, "cons": t["cons"], "c": t["c"], "fmt": t.get("fmt"),
             "inject": t["inject"], "out": t["out"], "lists": t["lists"], "sums": t["sums"], "solver": t.get("solver")}
 
 
@@ -87,7 +89,7 @@ def run(ck):
         if t["inject"]:
             ck.cat("injected_status")
         if len(t["vals"]) >= 2 and t["k"] >= 2:
-            ck.nontrivial.add(json_key([t[x] for x in ("vals", "k", "o", "kp", "copies", "w", "wgiven", "cons", "c", "inject")]))
+            ck.nontrivial.add(json_key([t[x] for x in ("vals", "k", "o", "kp", "copies", "w", "wgiven", "cons", "c", "inject", "fmt")]))
     ck.sample({x: keep[3][x] for x in ("vals", "k", "o", "copies", "w", "cons", "c", "out", "lists", "sums")})
     ck.sample({x: keep[-1][x] for x in ("vals", "k", "o", "copies", "w", "cons", "c", "inject", "out")})
     ck.rule = ("seeded requests to the ILP partitioner: values <=200, 1-5 items, 1-4 bins, copies as one number or per item (0/1/2), weight vectors from {1,2,3,10}, the three additional-"
@@ -101,7 +103,7 @@ def run(ck):
     if retry:
         st2 = []
         for fl in retry:
-            s = {x: fl["trace"][x] for x in ("vals", "k", "o", "kp", "copies", "cons", "c")}
+            s = {x: fl["trace"][x] for x in ("vals", "k", "o", "kp", "copies", "cons", "c", "fmt")}
             s["w"] = fl["trace"]["w"] if fl["trace"]["wgiven"] else None
             s["copies_scalar"] = False; s["inject"] = ""; s["nopre"] = 1
             st2.append(s)
